@@ -1063,17 +1063,28 @@ def hasDup : List Nat → Bool
   | [] => false
   | x :: xs => xs.contains x || hasDup xs
 
+/-- the validator loop of `ValidateGenesisState`, in file order: a validator address seen before is rejected
+(b164a5d), then a committee listed twice by that validator (0262f16); `none` = every validator passes -/
+def genesisValidatorsError (seen : List Addr) : List GenesisValidator → Option Err
+  | [] => none
+  | g :: rest =>
+    if seen.contains g.addr then some .invalidAddress
+    else if hasDup g.val.committees then some .invalidNumCommittees
+    else genesisValidatorsError (g.addr :: seen) rest
+
 /-- `ValidateGenesisState` on the modelled part of the genesis file -/
 def validateGenesis (params : Params) (accounts : List (Addr × Nat)) (pools : List (Nat × Nat)) (vals : List GenesisValidator) : M Unit :=
   match params.checkVal with
   | .error e => .error e
   | .ok _ =>
     if params.daoRewardPercentage > 100 then .error .invalidParam
-    -- a validator address, an account address or a pool id listed twice is rejected
-    else if hasDup (vals.map (·.addr)) then .error .invalidAddress
-    else if hasDup (accounts.map (·.1)) then .error .invalidAddress
-    else if hasDup (pools.map (·.1)) then .error .invalidChainId
-    else .ok ()
+    -- a validator address, a committee of one validator, an account address or a pool id listed twice is rejected
+    else match genesisValidatorsError [] vals with
+      | some e => .error e
+      | none =>
+        if hasDup (accounts.map (·.1)) then .error .invalidAddress
+        else if hasDup (pools.map (·.1)) then .error .invalidChainId
+        else .ok ()
 
 /-- `NewStateFromGenesis` (accounts, pools, validators, retired committees; no order books) at height 1.
 Protocol-gated genesis writes look at the height the state machine has while loading: 0. -/
